@@ -4,7 +4,7 @@
     validated by crash-point enumeration on real nodes, reported separately in the evidence).
     Only theorem statements closed by [exact]; model [Model/Restart.v] (+ [Model/MonUpd.v]), proofs
     [Proofs/C10.v]. *)
-Require Import LdkV.Prim.U64 LdkV.Model.Restart LdkV.Model.MonUpd LdkV.Proofs.C09a LdkV.Proofs.C09b LdkV.Proofs.C09 LdkV.Proofs.C10.
+Require Import LdkV.Prim.U64 LdkV.Model.Restart LdkV.Model.MonUpd LdkV.Model.Recovery LdkV.Proofs.C09a LdkV.Proofs.C09b LdkV.Proofs.C09 LdkV.Proofs.C10 LdkV.Proofs.C10b.
 Open Scope Z_scope.
 
 (** A channel whose serialized manager state is behind its monitor on ANY of the four counters (holder
@@ -57,3 +57,118 @@ Example C10_demo :
   reload demo_c (mkMsnap 5 99 101 100) = Closed 6 /\
   reload (mkCsnap 7 7 100 101 100 [5] []) demo_m5 = Dangerous.
 Proof. exact demo_reload. Qed.
+
+
+(** ------------------------------------------------------------------------------------------------------
+    Second part (still PARTIAL in the sense above: decision logic + an abstract recovery machine). *)
+
+(** (a) The in-flight replay filter, over ALL (manager snapshot, monitor) pairs: an in-flight update is replayed
+    iff its id is above the monitor's ([replay_filter] is the pinned source expression
+    `update.update_id > $monitor.get_latest_update_id()`); in particular the update whose id EQUALS the monitor's is
+    never replayed (the `>=` mutant hands the monitor an id it already has). *)
+Theorem C10_replay_filter_exact_partial : forall (c : csnap) (m : msnap) r e b,
+  reload c m = Resumed r e b ->
+  (forall i, In i r -> In i (cs_inflight c) /\ replay_filter (ms_id m) i = true) /\
+  (forall i, In i (cs_inflight c) -> replay_filter (ms_id m) i = true -> In i r) /\
+  (forall i, In i (cs_inflight c) -> i = ms_id m -> ~ In i r).
+Proof. exact replay_iff. Qed.
+
+(** With the in-flight list the pipeline produces (consecutive ids, C09_ids_gap_free) and a monitor that contains
+    everything below it, the replayed sequence is gap-free and strictly increasing and starts at monitor id + 1:
+    its k-th element is monitor id + 1 + k. *)
+Theorem C10_replay_gap_free_partial : forall (c : csnap) (m : msnap) r e b a n,
+  reload c m = Resumed r e b -> cs_inflight c = seqZ a n -> a <= ms_id m + 1 ->
+  r = seqZ (ms_id m + 1) (List.length r) /\
+  (forall k, (k < List.length r)%nat -> nth k r 0 = ms_id m + 1 + Z.of_nat k).
+Proof. exact replay_gap_free. Qed.
+
+(** (b) A channel closed as OutdatedChannelManager: the ChannelForceClosed update carries monitor id + 1, the
+    closed_channel_monitor_update_ids entry is at least that (equal when there was none), and every later post-close
+    update takes entry + 1, entry + 2, …: strictly increasing and above the close update. *)
+Theorem C10_stale_close_ids_partial : forall (c : csnap) (m : msnap) (old : option Z) i,
+  reload c m = Closed i ->
+  let '(fc, entry) := stale_bookkeeping (ms_id m) old in
+  fc = i /\ fc = ms_id m + 1 /\ fc <= entry /\ (old = None -> entry = fc) /\
+  forall n k, (k < n)%nat ->
+    nth k (post_close_ids entry n) 0 = entry + 1 + Z.of_nat k /\ fc < nth k (post_close_ids entry n) 0.
+Proof. exact stale_close_ids. Qed.
+
+(** (c) A ChannelMonitor without a channel in the manager: every such monitor that can still hold an unresolved HTLC
+    (latest_update_id >= 2: more than creation + closure) gets a closed_channel_monitor_update_ids entry (and with it
+    a PeerState) that is not below its id; one that still allows updates is always tracked and gets a ChannelForceClosed
+    update numbered latest + 1 = its entry; only a fully closed monitor at id <= 1 is left untracked. *)
+Theorem C10_closed_monitor_tracked_partial : forall (no_further_updates : bool) (latest : Z),
+  (2 <= latest -> exists e, fst (closed_monitor no_further_updates latest) = Some e /\ latest <= e) /\
+  (no_further_updates = false -> closed_monitor no_further_updates latest = (Some (latest + 1), Some (latest + 1))) /\
+  (no_further_updates = true -> snd (closed_monitor no_further_updates latest) = None /\
+     (fst (closed_monitor no_further_updates latest) = None <-> latest <= 1) /\
+     (1 < latest -> fst (closed_monitor no_further_updates latest) = Some latest)).
+Proof. exact closed_monitor_spec. Qed.
+
+(** (d) on_startup_drop_completed_blocked_mon_updates_through drops exactly the held updates with id <= the monitor's;
+    a resumed channel keeps exactly the others. *)
+Theorem C10_blocked_drop_exact_partial : forall (mid : Z) (l : list Z),
+  (forall i, In i (drop_blocked mid l) <-> In i l /\ mid < i) /\
+  (forall i, In i l -> i <= mid -> ~ In i (drop_blocked mid l)) /\
+  (forall c m r e b, reload c m = Resumed r e b -> b = drop_blocked (ms_id m) (cs_blocked c)).
+Proof.
+  intros mid l. destruct (drop_blocked_spec mid l) as (A & B & _). split; [exact A|]. split; [exact B|].
+  exact reload_keeps_blocked.
+Qed.
+
+(** The reload queues NO background event for a resumed channel exactly when nothing is replayed, no
+    MonitorUpdatesComplete is due and no held update is left. *)
+Theorem C10_background_events_iff_partial : forall (c : csnap) (m : msnap) r e b,
+  reload c m = Resumed r e b -> (background_events c m = [] <-> r = [] /\ e = None /\ b = []).
+Proof. exact background_events_nonempty. Qed.
+
+(** Finding F7, in the model: "a channel that is frozen (MONITOR_UPDATE_IN_PROGRESS) in the snapshot and resumed by the
+    reload gets a background event that will thaw it" does NOT hold. Witness ([C10_F7_witness]): send; the peer's
+    revoke_and_ack is held behind an unhandled event (flag set, nothing in flight) -> manager written; the event is
+    handled, the held update is released and persisted; reload: not stale, the held update is dropped, nothing queued. *)
+Theorem C10_frozen_resume_refuted_F7 :
+  ~ (forall c ls ls' holder revoked cparty r e b,
+       let s := reach c ls in let s' := reach c (ls ++ ls') in
+       let snap := snapshot_of s holder revoked cparty in
+       let m := mkMsnap (latest (ch s')) holder revoked cparty in
+       mip (ch s) = true -> reload snap m = Resumed r e b -> background_events snap m <> []).
+Proof. exact frozen_resume_refuted. Qed.
+
+Example C10_F7_witness :
+  mip (ch f7_state) = true /\ inflight (mg f7_state) = [] /\ ids (blocked (ch f7_state)) = [6] /\
+  mip (ch f7_later) = false /\ done (gh f7_later) = [4; 5; 6] /\ ms_id f7_monitor = 6 /\
+  stale f7_snapshot f7_monitor = false /\
+  reload f7_snapshot f7_monitor = Resumed [] None [] /\
+  background_events f7_snapshot f7_monitor = [].
+Proof. exact f7_witness. Qed.
+
+(** (2) Abstract crash recovery (one channel; durable monitor = id-indexed log prefix, completion reports, manager
+    snapshots with their in-flight range, crash + reload through the SAME [reload] as above), for ALL op lists:
+    the invariant holds ... *)
+Theorem C10_recovery_invariant_partial : forall (base : Z) (ops : list dop), dinv (drun base ops).
+Proof. exact drun_inv. Qed.
+
+(** ... and in every reachable state: the durable monitor contains every update reported complete; a crash now never
+    yields DangerousValue; the channel is closed (from the monitor's id) exactly when the written manager lags behind
+    the durable monitor; otherwise it is resumed, the replay is the gap-free run monitor id + 1 .. manager's latest id,
+    and after the reload the monitor still contains everything reported complete. *)
+Theorem C10_recovery_safe_partial : forall (base : Z) (ops : list dop),
+  let d := drun base ops in
+  closed d = false ->
+  comp d <= disk d /\ s_latest d <= handed d /\
+  reload (snap_of d) (mon_of d) <> Dangerous /\
+  (s_latest d < disk d -> reload (snap_of d) (mon_of d) = Closed (disk d + 1) /\ closed (dstep d DCrash) = true) /\
+  (disk d <= s_latest d -> exists e,
+     reload (snap_of d) (mon_of d) = Resumed (seqZ (disk d + 1) (Z.to_nat (s_latest d - disk d))) e [] /\
+     closed (dstep d DCrash) = false /\ handed (dstep d DCrash) = s_latest d /\ disk (dstep d DCrash) = disk d /\
+     comp (dstep d DCrash) <= disk (dstep d DCrash)).
+Proof. exact recovery_safe. Qed.
+
+Example C10_recovery_demo :
+  let ops1 := [DApply; DApply; DLand; DComplete; DWriteMgr; DApply; DLand; DLand] in
+  let ops2 := [DApply; DApply; DWriteMgr; DLand] in
+  reload (snap_of (drun 4 ops1)) (mon_of (drun 4 ops1)) = Closed 8 /\
+  closed (drun 4 (ops1 ++ [DCrash])) = true /\
+  reload (snap_of (drun 4 ops2)) (mon_of (drun 4 ops2)) = Resumed [6] None [] /\
+  drun 4 (ops2 ++ [DCrash; DLand; DComplete; DComplete]) = mkD 6 6 6 6 4 false.
+Proof. exact recovery_demo. Qed.
